@@ -427,17 +427,42 @@ def through_param(n, _depth=0):
     return n
 
 
+FIELD_ALIAS = {}    # canonical qualified field name -> {actual qualified names}: lets a rule name a field by its role (see rules/oth.py)
+
+
 def is_field(n, qname):
     """member access to field `qname` (qualified, template args stripped for comparison) on this or any object"""
     n = through_param(n)
     if not (isinstance(n, dict) and n.get("k") == "member" and n.get("dk") == "field"):
         return False
-    return name_is(strip_tmpl(n.get("name", "")), qname)
+    nm = strip_tmpl(n.get("name", ""))
+    if name_is(nm, qname):
+        return True
+    for q in ((qname,) if isinstance(qname, str) else qname):
+        if nm in FIELD_ALIAS.get(q, ()):
+            return True
+    return False
 
 
 def is_this_field(n, qname):
+    """field of this, directly or through member structs held by value (this->m_own.worker)"""
     n = through_param(n)
-    return is_field(n, qname) and isinstance(n.get("base"), dict) and skip_copies(n["base"]).get("k") == "this"
+    if not is_field(n, qname):
+        return False
+    cur = n
+    for _ in range(4):
+        b = cur.get("base")
+        if not isinstance(b, dict):
+            return False
+        b = skip_copies(b)
+        if b.get("k") == "this":
+            return True
+        # `.` access into a member object held by value: still part of this object; `->` through a member pointer is another object
+        if b.get("k") == "member" and b.get("dk") == "field" and not cur.get("arrow"):
+            cur = b
+            continue
+        return False
+    return False
 
 
 def is_call(n, callee, nargs=None):
